@@ -306,7 +306,7 @@ theorem C11_env_values_general (tags : List String) (cfg : FlattenCfg) (fuelF fu
   apply All2.of_mem (All2.length hg)
   intro o w hmem
   have ho := (hf1 o (List.of_mem_zip hmem).1).1
-  exact flattenGood_spec ho.1 ho.2 (All2.mem hg o w hmem)
+  exact flattenGood_spec ho (All2.mem hg o w hmem)
 
 /-- `aliasPick` on a nil-able (pointerified) field: a single translated field passes its value; of
 primary and alias, the set one wins; both set is the error "both alias and original set". -/
